@@ -138,6 +138,10 @@ def run(tier):
             ck.violation("order-dependent-verdict", "two orders of the same declarations are not accepted/rejected alike",
                          "order 1:\n%s\norder 2:\n%s" % (dict(cases)["g%d.0" % i], dict(cases)["g%d.1" % i]))
     ck.log("graphs: %d modules %s, %d problems" % (len(cases), dict(stats), mism))
+    # words larger than declared (E380): every small word at every declared size
+    from . import c10
+    nwords, wbad = c10.check_words(ck, tier)
+    mism += wbad
     # permutations of whole programs behave identically
     nprog = 40 if tier == "quick" else 3000
     pc = []
@@ -164,7 +168,7 @@ def run(tier):
         ck.violation("tie-broken:proof", "Props/C11.v no longer checks", getattr(ck, "proof_output", "")[-2000:])
     ck.coverage.update(
         evaluations=len(cases) + len(pc), distinct_nontrivial=len(distinct),
-        rule="random dependency graphs of 2-7 constants and structures (edges through constant expressions, size-of, member types, named array lengths; 35% with back edges), each in two source orders: acyclic must be accepted, cyclic rejected with a cycle code, both orders alike; scoper depths and cycle codes vs Model/Containers.v fed with the edge list in processing order; plus generated programs (with constants defined from constants, structures, words, functions) under 3 random permutations of ALL their top-level declarations (same verdict and lli output); distinct = distinct graphs",
+        rule="random dependency graphs of 2-7 constants and structures (edges through constant expressions, size-of, member types, named array lengths; 35% with back edges), each in two source orders: acyclic must be accepted, cyclic rejected with a cycle code, both orders alike; scoper depths and cycle codes vs Model/Containers.v fed with the edge list in processing order; every word of 1-4 members of 1/2/4/8 bytes at every declared size (E380 iff the aligned size exceeds it, per Model/Layout.v); plus generated programs (with constants defined from constants, structures, words, functions) under 3 random permutations of ALL their top-level declarations (same verdict and lli output); distinct = distinct graphs",
         graph_stats=dict(stats), problems=mism, permuted_programs=compared,
         samples=[dict(source=cases[0][1], graph=meta[cases[0][0]][1], real=impl.get(cases[0][0], ["?"])[0])])
     ck.assumptions += ["the edge list given to the model is computed by the generator in the order the scoper visits declarations, value expressions, members and array types",
